@@ -118,7 +118,7 @@ def rule_exclusive_acquire(ctx, rule):
                       witness=g.witness([r], edges=edges), where=where(f, r.ast))
         # falling off the end (implicit None) must be impossible or falsy: acquire's callers
         # ignore the value, so only explicit True matters.
-    ctx.floor(rule, "lock_classes", n, 2)
+    ctx.floor(rule, "lock_classes", n, 2, exact=True)
 
 
 def rule_release(ctx, rule):
@@ -186,7 +186,7 @@ def rule_release(ctx, rule):
         ctx.check(conv, rule, f.short, "oserror-to-runtimeerror",
                   message=f"{cls.name}.release does not convert OSError into RuntimeError (acquire's "
                           f"takeover loop relies on it)", how="except OSError: raise RuntimeError")
-    ctx.floor(rule, "release_impls", n, 2)
+    ctx.floor(rule, "release_impls", n, 2, exact=True)
 
     # get_lock_file: acquire, then release on all exits
     f = p.func(MOD + ".get_lock_file")
@@ -542,10 +542,14 @@ def rule_reader_guards(ctx, rule_accept, rule_offsets):
             and any(isinstance(t, ast.Subscript) and self_attr(t.value) == "_log_number_offset" for t in n.ast.targets)]
     # loop counter name
     counter = tnames[0] if len(tnames) > 1 else None
+    ldefs = single_defs_loop(loop)
+
+    def is_next(sl):
+        return norm(resolve(sl, ldefs)) in (f"{counter} + 1", f"1 + {counter}")
     for mk in marks:
         reach = g.reachable([mk], avoid_nodes=dels, edge_ok=NORMAL)
         bad = head in reach or g.exit in reach
-        idx_ok = all(norm(t.slice) in (f"{counter} + 1", f"1 + {counter}") for d in dels for t in d.ast.targets if isinstance(t, ast.Subscript))
+        idx_ok = all(is_next(t.slice) for d in dels for t in d.ast.targets if isinstance(t, ast.Subscript))
         ctx.check((not bad) and idx_ok and bool(dels), rule_offsets, f.short, "error-mark-drops-next-offset",
                   message="a line marked as undecodable/unterminated keeps its end offset in the cache: "
                           "the next read would start after a record that was never returned",
@@ -559,7 +563,6 @@ def rule_reader_guards(ctx, rule_accept, rule_offsets):
                 if isinstance(t, ast.Subscript) and self_attr(t.value) == "_log_number_offset":
                     stores.append((n, t))
     ctx.floor(rule_offsets, "offset_stores", len(stores), 1)
-    ldefs = single_defs_loop(loop)
     for n, t in stores:
         v = resolve(n.ast.value, ldefs)
         shape = False
@@ -567,7 +570,7 @@ def rule_reader_guards(ctx, rule_accept, rule_offsets):
             parts = [norm(v.left), norm(v.right)]
             want_prev = f"self._log_number_offset[{counter}]"
             shape = want_prev in parts and f"len({line})" in parts
-        idx = norm(t.slice) in (f"{counter} + 1", f"1 + {counter}")
+        idx = is_next(t.slice)
         ctx.check(shape and idx, rule_offsets, f.short, "offset-provenance",
                   message=f"offset cache entry `{norm(t)}` is not computed as offset[n] + len(line) "
                           f"(got `{norm(n.ast.value)}`)",
